@@ -259,8 +259,7 @@ func (cl *Client) ParseConnect(lid string, pk packets.Packet) {
 			WillDelayInterval: pk.Connect.WillProperties.WillDelayInterval,
 			User:              pk.Connect.WillProperties.User,
 		}
-		if pk.Properties.SessionExpiryIntervalFlag &&
-			pk.Properties.SessionExpiryInterval < pk.Connect.WillProperties.WillDelayInterval {
+		if pk.Properties.SessionExpiryInterval < pk.Connect.WillProperties.WillDelayInterval { // an absent interval is 0: the session ends with the connection
 			cl.Properties.Will.WillDelayInterval = pk.Properties.SessionExpiryInterval
 		}
 		if pk.Connect.WillFlag {
